@@ -163,7 +163,7 @@ func (w *dworld) do(i int) {
 			w.ph[i] = phWait
 		}
 	case phHeld, phStale, phReleasing:
-		if w.ph[i] == phHeld {
+		if w.ph[i] == phHeld && !w.sc.Txns[i].Fails {
 			lock.SetCommitTS(w.sc.Txns[i].Commit)
 		}
 		if w.ph[i] != phReleasing {
